@@ -184,7 +184,7 @@ string<A> ebpps_sample<T ,A>::to_string() const {
   else
     oss << "NULL" << std::endl;
 
-  return oss.str();
+  return string<A>(oss.str().c_str(), allocator_);
 }
 
 template<typename T, typename A>
